@@ -23,6 +23,13 @@ func init() {
 				r.Rule("R10f", "INDEX-AT-NODE: every position written to the map forest's leaf index is the position expression of a node-store Put in the same function")
 				checkIndexAtNode(p, r, "R10f")
 			}},
+			{ID: "R10j", Statement: "look-ups translate in the right direction", Run: func(p *Program, r *Report) {
+				r.Rule("R10j", "LOOKUP-LAYOUT: in the map forest's look-ups a position taken from the leaf index (TotalRows layout) is translated from that layout, a position given by the caller (tree layout) from the tree layout, and what is returned is in the tree layout")
+				or := runOrderEngine(p, r, "R10j", []string{"(*MapPollard).GetLeafPosition", "(*MapPollard).GetLeafHashPositions", "(*MapPollard).GetHash"})
+				reportOrderEvents(p, r, or, orderRules{coord: "R10j"})
+				checkOutputLayout(p, r, or, "R10j", "(*MapPollard).GetLeafPosition", 0, "")
+				checkOutputLayout(p, r, or, "R10j", "(*MapPollard).GetLeafHashPositions", 0, "")
+			}},
 			{ID: "R10i", Statement: "a hit under a truncated key is confirmed", Run: func(p *Program, r *Report) {
 				r.Rule("R10i", "TRUNCATED-KEY-CONFIRMED: in a hash -> position look-up, a node found under the truncated key of the caller's hash is used only behind an equality of its full hash with the hash asked for")
 				checkTruncatedLookupConfirmed(p, r, "R10i")
